@@ -213,4 +213,5 @@ def replay_file(mod, pid, path):
     print('property holds natively on this input'); return 0
 
 if __name__ == '__main__':
-    sys.exit(main())
+    from mirsym.bigframe import run_in_big_frame
+    sys.exit(run_in_big_frame(main))          # see bigframe.py: avoids CPython 3.11 data-stack chunk thrash (mmap/munmap per call)
